@@ -291,6 +291,9 @@ func (m *machine) blockOn(what string, canRun func() bool) bool {
 	me := ts.cur
 	me.canRun = canRun
 	me.what = what
+	if what != "join" {
+		me.what = what + " @" + m.whereShort()
+	}
 	next := m.pickNext(nil)
 	if next == nil {
 		me.canRun = nil
